@@ -420,10 +420,10 @@ theorem no_runner_witness : dirLeftWithoutRunner { goodParams with socketDirRemo
 closed at once.  (This is what the release condition of the go-site `grpcKnocks` above takes for granted.) -/
 theorem knock_loop_ends_with_listener (K : GrpcMux.KnockLoopParams) (hK : K.Good) (closedBeforeLoopRan : Bool) :
     GrpcMux.knockLoopEnds K closedBeforeLoopRan = true := by
-  have h : K.usesAcceptSlot = true := hK
+  have h : K.usesAcceptSlot = true := hK.1
   simp [GrpcMux.knockLoopEnds, h]
 
 /-- Witness: looking the slot up again by id, a loop whose listener was closed before it ran never ends -/
-theorem second_lookup_witness : GrpcMux.knockLoopEnds ⟨false⟩ true = false := by decide
+theorem second_lookup_witness : GrpcMux.knockLoopEnds ⟨false, true⟩ true = false := by decide
 
 end GoPlugin.Props.C18
